@@ -324,6 +324,65 @@ scenarios! {
             acc
         })
     }
+    "rarely used entry points: conv functions called directly, FromSample, channel_mut, channels_mut().rev(), from_* slice views, Bounded IndexMut / from_full / raw parts, Detect::detect, Converter source / setters, Phase::next_phase_wrapped_to" => |seed, n| {
+        steady(|| {
+            let src = signal::from_iter(frames_f32x2(seed, n + 8));
+            let conv = Converter::scale_playback_hz(src, Linear::new([0.0f32; 2], [0.0f32; 2]), 1.25);
+            (conv, signal::rate(48_000.0).const_hz(441.0).phase(), Sinc::new(Fixed::from([[0.0f32; 2]; 8])), frames_f32x2(seed ^ 3, 8), frames_f64(seed, 12), seed | 1)
+        }, |st| {
+            use dasp_envelope::detect::{Detect, Peak};
+            use dasp_sample::{conv, FromSample, ToSample};
+            let (cv, phase, sinc, frames, samples, s) = st;
+            let mut acc = 0u64;
+            for k in 0..n {
+                let v = fv(s);
+                // conversion functions and the underscore traits, called directly
+                let a: i16 = conv::f64::to_i16(v);
+                let b: u8 = conv::i16::to_u8(a);
+                let c: I24 = conv::f32::to_i24(v as f32);
+                let d: f32 = conv::i24::to_f32(c);
+                let e: i32 = FromSample::from_sample_(d);
+                let g: u16 = ToSample::to_sample_(e);
+                mix(&mut acc, a as u16 as u64 ^ b as u64 ^ g as u64);
+                mixf(&mut acc, d as f64 + U48::new_unchecked(1 << 40).to_sample::<f64>());
+                // frames: channel_mut and the double-ended mutable iterator
+                let mut f = [a, a / 2, a / 3, 7];
+                if let Some(x) = f.channel_mut(k % 5) { *x = x.wrapping_add(1); }
+                for x in f.channels_mut().rev().take(2) { *x = x.wrapping_sub(1); }
+                mix(&mut acc, f[3] as u16 as u64 + f[0] as u16 as u64);
+                // borrowed views through the from_* entry points
+                let v3: Option<&[[f64; 3]]> = ds::from_sample_slice(&samples[..]);
+                let v5: Option<&[[f64; 5]]> = ds::from_sample_slice(&samples[..]);
+                let back: &[f32] = ds::from_frame_slice(&frames[..]);
+                mix(&mut acc, v3.map_or(0, |x| x.len() as u64) + v5.is_some() as u64 + back.len() as u64);
+                {
+                    let m: Option<&mut [[f64; 4]]> = ds::from_sample_slice_mut(&mut samples[..]);
+                    if let Some(m) = m { m[0][k % 4] *= 0.999; }
+                    let fm: &mut [f32] = ds::from_frame_slice_mut(&mut frames[..]);
+                    fm[k % 16] *= 0.5;
+                }
+                // bounded ring buffer over an array: from_full, IndexMut, raw parts round trip (no heap involved)
+                let mut rb = Bounded::from_full([1u32, 2, 3, 4]);
+                rb[k % 4] = k as u32;
+                let _ = rb.pop();
+                rb.push(9);
+                let (start, len, data) = unsafe { rb.into_raw_parts() };
+                let rb2 = Bounded::from_raw_parts(start, len, data);
+                mix(&mut acc, rb2.iter().map(|x| *x as u64).sum::<u64>());
+                // detector stage used directly
+                let mut p = Peak::full_wave();
+                let det: [f32; 2] = p.detect([v as f32, -(v as f32)]);
+                mixf(&mut acc, det[0] as f64 + det[1] as f64 + sinc.interpolate(0.25)[0] as f64);
+                // converter: source access and every setter between frames
+                match k % 4 { 0 => cv.set_playback_hz_scale(0.75), 1 => cv.set_sample_hz_scale(1.5), 2 => cv.set_hz_to_hz(44_100.0, 48_000.0), _ => {} }
+                let o = cv.next();
+                mixf(&mut acc, o[0] as f64 + cv.source().is_exhausted() as u8 as f64);
+                if k % 97 == 0 { let _ = cv.source_mut().next(); }
+                mixf(&mut acc, phase.next_phase_wrapped_to(0.5) + phase.next_phase());
+            }
+            acc
+        })
+    }
     "window functions: Hann, Rectangle (f64, f32)" => |seed, n| {
         steady(|| seed | 1, |s| {
             let mut acc = 0u64;
